@@ -220,7 +220,7 @@ func (w *Worker) harnessIntrinsic(st *State, f *Frame, x ssa.Value, name string,
 		// structural containment: every part occurs, in order, as a contiguous run of segments
 		text := args[0].(StrV)
 		parts := st.sliceElems(args[1].(SliceV))
-		set(mkBool(containsInOrder(text, parts)))
+		set(containsInOrder(text, parts))
 	default:
 		panic(engineErr("unknown harness intrinsic " + name))
 	}
@@ -243,49 +243,82 @@ func stdinLine(k int) StrV {
 	return atom(Term{S: name, Sort: STxt})
 }
 
-// expand turns a string into a flat list of unit segments (one code point or one atom each).
-func expand(s StrV) []string {
-	var out []string
+// unit segments of a text: one code point (BV32 term) or one opaque atom (Txt term) each
+type unitSeg struct {
+	atom bool
+	t    Term
+}
+
+func expand(s StrV) []unitSeg {
+	var out []unitSeg
 	for _, g := range s.Segs {
 		switch g.K {
 		case SegLit:
 			for _, r := range g.Lit {
-				out = append(out, fmt.Sprintf("L%d", r))
+				out = append(out, unitSeg{false, mkBV(uint64(uint32(r)), 32)})
 			}
 		case SegRune:
-			out = append(out, "R"+g.T.S)
+			out = append(out, unitSeg{false, g.T})
 		case SegAtom:
-			out = append(out, "A"+g.T.S)
+			out = append(out, unitSeg{true, g.T})
 		}
 	}
 	return out
 }
 
-func containsInOrder(text StrV, parts []Value) bool {
+func unitEq(a, b unitSeg) Term {
+	if a.atom != b.atom {
+		return mkBool(false) // under-approximation: an atom is never matched against code points
+	}
+	return mkEq(a.t, b.t)
+}
+
+// containsInOrder: every part occurs in text, in order, as a run of unit segments; the
+// result is a formula over the alignments (decided by the solver under the path constraint).
+func containsInOrder(text StrV, parts []Value) Term {
 	hay := expand(text)
-	pos := 0
-	for _, p := range parts {
-		needle := expand(p.(StrV))
-		found := -1
-		for i := pos; i+len(needle) <= len(hay); i++ {
-			ok := true
-			for j := range needle {
-				if hay[i+j] != needle[j] {
-					ok = false
+	needles := make([][]unitSeg, len(parts))
+	for i, p := range parts {
+		needles[i] = expand(p.(StrV))
+	}
+	memo := map[[2]int]Term{}
+	var f func(p, start int) Term
+	f = func(p, start int) Term {
+		if p == len(needles) {
+			return mkBool(true)
+		}
+		key := [2]int{p, start}
+		if t, ok := memo[key]; ok {
+			return t
+		}
+		nd := needles[p]
+		var alts []Term
+		for i := start; i+len(nd) <= len(hay); i++ {
+			conj := make([]Term, 0, len(nd)+1)
+			dead := false
+			for j := range nd {
+				e := unitEq(hay[i+j], nd[j])
+				if e.isFalse() {
+					dead = true
 					break
 				}
+				conj = append(conj, e)
 			}
-			if ok {
-				found = i
-				break
+			if dead {
+				continue
 			}
+			rest := f(p+1, i+len(nd))
+			if rest.isFalse() {
+				continue
+			}
+			conj = append(conj, rest)
+			alts = append(alts, mkAnd(conj...))
 		}
-		if found < 0 {
-			return false
-		}
-		pos = found + len(needle)
+		r := mkOr(alts...)
+		memo[key] = r
+		return r
 	}
-	return true
+	return f(0, 0)
 }
 
 // ---- process environment model (A-os, A-stdin) ------------------------------------------------
